@@ -1,7 +1,8 @@
 #!/bin/bash
 # run every check (quick by default), report exit code and wall time; validate evidence files
 TIER="${1:-quick}"
-cd /verif
+cd "$(dirname "$0")/.."
+ROOT="$(pwd)"
 for id in C01 C02 C03 C04 C05 C06 C07 C08 C09 C10 C11 C12 C13 C14 C15 C16 C17 C18 C19 C20; do
   s=$(date +%s.%N)
   out=$(./check.sh $id $TIER 2>&1); code=$?
@@ -9,10 +10,10 @@ for id in C01 C02 C03 C04 C05 C06 C07 C08 C09 C10 C11 C12 C13 C14 C15 C16 C17 C1
   printf "%s exit=%s wall=%.1fs :: %s\n" $id $code $(echo "$e - $s" | bc) "$(echo "$out" | grep -E "^$id $TIER" | tail -1)"
   echo "$out" | grep -E "VIOLATION|KNOWN-FINDING|INFRA|INCONCLUSIVE" | cut -c1-200
 done
-python3-vt - <<'PY'
-import json,jsonschema,glob
+ROOT=$ROOT python3-vt - <<'PY'
+import json,jsonschema,glob,os
 sch=json.load(open('/root/.vp/EVIDENCE.schema.json'))
-for f in sorted(glob.glob('/verif/evidence/C*.json')):
+for f in sorted(glob.glob(os.environ['ROOT']+'/evidence/C*.json')):
     try:
         jsonschema.validate(json.load(open(f)),sch)
     except Exception as e:
